@@ -1,7 +1,7 @@
 #!/bin/bash
 # runs every seeded change (or those given) against its property's quick check, sequentially
 cd /verif
-while pgrep -f "tools/runq.sh|tools/after.sh" > /dev/null; do sleep 20; done
+# (runs next to the regular queues: tagged runs, own gen/build dirs)
 LIST="$@"
 [ -z "$LIST" ] && LIST=$(ls seeded | grep -E '^C[0-9]+-[0-9]+$')
 for s in $LIST; do
